@@ -1,6 +1,7 @@
 (* Case checkers for the C05 correspondence run (Model/Rmcp.v vs. pyipmi/interfaces/rmcp.py). *)
+From Coq Require Import String.
 From Coq Require Import NArith List Bool.
-From PyIpmi Require Import Lib.Res Lib.Bytes Model.Rmcp.
+From PyIpmi Require Import Lib.Res Lib.Bytes Model.Codec Gen.Layouts Model.Ipmb Model.Rmcp Model.Wire.
 Import ListNotations.
 Open Scope N_scope.
 
@@ -67,3 +68,29 @@ Definition chk_send (tab : list (list N * list N)) (so : option sess) (rseq : N)
                     (seq' rseq' code : N) (dgram : list N) : bool :=
   let '(so', rs, r) := send_ipmi_msg (md5_of tab) so rseq data in
   (seq_of so' =? seq') && (rs =? rseq') && r_match bytes_eqb r code dgram.
+
+(* ---- end to end: Rmcp.send_and_receive(req) for a registered request class ---- *)
+Definition find_layout (name : string) : option layout :=
+  option_map m_layout (find (fun x => String.eqb (m_name x) name) registry).
+(* [rs_sa; rs_lun; rq_sa; rq_lun; rq_seq; netfn; cmdid] *)
+Definition hdr_of (l : list N) : hdr :=
+  match l with [a; b; c; d; e; f; g] => mkHdr a b c d e f g | _ => mkHdr 0 0 0 0 0 0 0 end.
+Definition hdr_list (h : hdr) : list N := [rs_sa h; rs_lun h; rq_sa h; rq_lun h; rq_seq h; netfn h; cmdid h].
+
+(* the model's composition sends the observed datagram (same session / RMCP sequence numbers
+   afterwards, same exception class otherwise), and the independent receiver gets the header
+   and the field values back out of the OBSERVED datagram *)
+Definition chk_e2e (tab : list (list N * list N)) (name : string) (e : env) (hl : list N)
+                   (so : option sess) (rseq seq' rseq' code : N) (dgram : list N) : bool :=
+  match find_layout name with
+  | None => false
+  | Some l =>
+    let '(so', rs, r) := wire_send (md5_of tab) l e (hdr_of hl) so rseq in
+    (seq_of so' =? seq') && (rs =? rseq') && r_match bytes_eqb r code dgram &&
+    (if code =? 0 then
+       match wire_recv l dgram with
+       | Ok (h', e') => bytes_eqb (hdr_list h') hl && list_eqb val_eqb e' e
+       | Err _ => false
+       end
+     else true)
+  end.
